@@ -2507,25 +2507,35 @@ def _slice_indices(index: slice, len: int):
     elif step == 0:
         raise ValueError("Step cannot be zero.")
 
+    # same clamping as CPython's slice.indices
+    if step > 0:
+        lower = 0
+        upper = len
+    else:
+        lower = -1
+        upper = len - 1
+
     start = index.start
     stop = index.stop
     if start is None:
         if step > 0:
-            start = 0
+            start = lower
         else:
-            start = len - 1
+            start = upper
     elif start < 0:
-        start = max(0, len + start)
+        start = max(lower, len + start)
+    else:
+        start = min(upper, start)
 
     if stop is None:
         if step > 0:
-            stop = len
+            stop = upper
         else:
-            stop = -1
-    elif stop > 0:
-        stop = min(len, stop)
-    elif step < 0 or (step > 0 and start >= 0):
-        stop = len + stop
+            stop = lower
+    elif stop < 0:
+        stop = max(lower, len + stop)
+    else:
+        stop = min(upper, stop)
     return start, stop, step
 
 
